@@ -35,6 +35,9 @@ type c13Case struct {
 	RO        string   `json:"request_object,omitempty"`
 	ROAlg     string   `json:"request_object_signing_alg,omitempty"`
 	ClientID  string   `json:"client_id,omitempty"`
+	// ViaPAR: the request is pushed first. "mode-pushed": response_mode is part of the pushed request;
+	// "mode-added": it is left out of the push and appended to the front-channel request instead
+	ViaPAR string `json:"via_par,omitempty"`
 }
 
 func strOfLen(n int) string { return strings.Repeat("s", n) }
@@ -144,7 +147,30 @@ func c13Run(c c13Case, res *WRes) {
 	default:
 		p.Set("request", ro)
 	}
-	o := w.Authorize(p, AuthzOpts{})
+	var o *Obs
+	if c.ViaPAR != "" {
+		push := url.Values{}
+		for k, v := range p {
+			push[k] = v
+		}
+		if c.ViaPAR == "mode-added" {
+			push.Del("response_mode")
+		}
+		po := w.PAR(push, w.AuthFor("V"))
+		res.Trans++
+		ru := po.Str("request_uri")
+		if ru == "" {
+			res.class(c.Group + ":push-refused:" + po.Class())
+			return
+		}
+		q := url.Values{"client_id": {"V"}, "request_uri": {ru}}
+		if c.ViaPAR == "mode-added" && c.Mode != "" {
+			q.Set("response_mode", c.Mode)
+		}
+		o = w.Authorize(q, AuthzOpts{})
+	} else {
+		o = w.Authorize(p, AuthzOpts{})
+	}
 	res.Trans++
 	code, at, idt := o.Param("code"), o.Param("access_token"), o.Param("id_token")
 	accepted := code != "" || at != "" || idt != ""
@@ -183,7 +209,35 @@ func c13Run(c c13Case, res *WRes) {
 		return
 	}
 	// (c) response_mode
-	if c.Mode != "" {
+	if c.ViaPAR == "mode-added" {
+		// the appended response_mode was never validated with the pushed request: it may be ignored, but if the
+		// response is actually delivered that way, the client must be allowed to use that mode
+		used := ""
+		switch {
+		case o.FormPost != nil:
+			used = "form_post"
+		case o.Fragment.Get("code") != "" || o.Fragment.Get("access_token") != "" || o.Fragment.Get("id_token") != "":
+			used = "fragment"
+		case o.Query.Get("code") != "":
+			used = "query"
+		}
+		if c.Mode != "" && used == c.Mode && (c.RT != "code" || used != "query") {
+			ok := false
+			for _, m := range c.RegModes {
+				if m == c.Mode {
+					ok = true
+				}
+			}
+			defaultMode := "fragment"
+			if c.RT == "code" {
+				defaultMode = "query"
+			}
+			if !ok && used != defaultMode {
+				viol("C13/par-second-leg-response_mode-not-validated/mode="+c.Mode, fmt.Sprintf("a response_mode %q appended to the request_uri leg of a pushed request was used for delivery although the client may only use %v", c.Mode, c.RegModes), "ignored or refused", o.Location+o.FormAct)
+				return
+			}
+		}
+	} else if c.Mode != "" {
 		ok := false
 		for _, m := range c.RegModes {
 			if m == c.Mode {
@@ -404,6 +458,8 @@ func c13Cases(group string) []c13Case {
 				for _, rt := range c13AllRT {
 					for _, sc := range []string{"a", "openid a"} {
 						cs = append(cs, c13Case{Group: group, RegRT: all, RegGrants: allG, RegModes: rm, URIs: 1, RT: rt, Mode: m, State: okState, Nonce: okNonce, Scope: sc})
+						cs = append(cs, c13Case{Group: group, RegRT: all, RegGrants: allG, RegModes: rm, URIs: 1, RT: rt, Mode: m, State: okState, Nonce: okNonce, Scope: sc, ViaPAR: "mode-pushed"})
+						cs = append(cs, c13Case{Group: group, RegRT: all, RegGrants: allG, RegModes: rm, URIs: 1, RT: rt, Mode: m, State: okState, Nonce: okNonce, Scope: sc, ViaPAR: "mode-added"})
 					}
 				}
 			}
@@ -524,7 +580,7 @@ func init() {
 			}
 		}
 		r.Bounds = map[string]any{"groups": sizes, "G1": "8 registered response-type sets x 4 grant sets x public x all ordered response_type lists of <=3 tokens over {code,token,id_token,bogus} (incl. duplicates, empty) x scope{a, openid a}",
-			"G2": "6 response-mode registrations x 5 requested modes x 7 response types x openid", "G3": "MinParameterEntropy{8,12} x 7 state values x 7 nonce values x 7 response types x openid",
+			"G2": "6 response-mode registrations x 5 requested modes x 7 response types x openid x {direct, pushed, pushed with response_mode appended to the request_uri leg}", "G3": "MinParameterEntropy{8,12} x 7 state values x 7 nonce values x 7 response types x openid",
 			"G4": "1|2 registered URIs x redirect_uri present/absent x 3 scopes x 7 response types x 4 grant sets", "G5": "14 request-object variants x 6 registered algorithms x 3 response types x openid", "G7": "cross terms: 3 registrations x 2 grant sets x every response_type list x 4 modes x state{7,8} x nonce{-,7,8} x openid x redirect_uri present/absent", "G6": "request objects verified through jwks_uri (in-memory transport, real DefaultJWKSFetcherStrategy and cache): 4 look-alike URI pairs x 3 cross-client presentations after a warm-up"}
 		r.Rule = "each group is a full product, every case is sent to the real authorization endpoint of a fresh provider; an accepted request must satisfy every listed condition (one-sided), tokens never appear in the query, state is echoed on every redirect, issued codes are carried to the token endpoint; G7 covers the cross terms of G1-G4 on three registrations; distinct = distinct accepted cases"
 		r.Assumptions = []string{"hybrid code+id_token without the implicit grant (ID token only) and unsigned request objects for a client with no registered algorithm are don't-care", "request_uri documents are served by an in-memory HTTP transport"}
